@@ -108,9 +108,9 @@ def analyse(W, name, f, ctx, desc, path):
                               f"{'never consulted' if flag == '?' else 'False'} on this path",
                               [f"raised in {path.raise_site[0]} via {chain(path.raise_stack)}", f"path decisions: {decisions_text(path)}"]))
             items.append(("interlock", name, desc, cls, path.raise_site[0], chain(path.raise_stack)))
-        return items
-    # accepted path
-    items.append(("accepted", name, desc, tuple(delivered)))
+    else:
+        items.append(("accepted", name, desc, tuple(delivered)))
+    # R4 holds after *every* call, accepted or rejected: the flags must follow the delivered codes
     state = None
     for a, lab in W.labels.items():
         if lab == "state":
@@ -127,7 +127,7 @@ def analyse(W, name, f, ctx, desc, path):
                 good = v == Const(sim)
         if not good:
             items.append(("viol", "R4", f"{name}:{flag_name}:mirror",
-                          f"{entry} pre={pre}: delivered {delivered} so the program leaves "
+                          f"{entry} pre={pre} ({'rejected with ' + path.value.cls if path.outcome == 'raise' else 'accepted'}): delivered {delivered} so the program leaves "
                           f"{flag_name[4:].replace('_', ' ')} = {sim}, but the state reports {v!r}",
                           [f"path decisions: {decisions_text(path)}"]))
         else:
